@@ -5,6 +5,8 @@
    function passes through unchanged). *)
 From Coq Require Import ZArith QArith List Bool.
 From PV Require Import Lib.Py Model.Text Proofs.C20.
+From PV Require Import Model.TextFormat Proofs.Radix.
+From PV Require Import Proofs.C20TextSpec Proofs.C20TextConv Proofs.C20Text Proofs.C20TextTop.
 Import ListNotations.
 Open Scope Z_scope.
 
@@ -185,8 +187,6 @@ Print Assumptions C20_lower_ascii.
    [text_spec rnd x F] is the declarative rendering (sign, zero padding, digits
    of the integer part, grouping in threes, '.', fraction digits without the
    optional trailing zeros, '%' signs) of rnd(|x| * 100^(#%) * 10^(#frac)). *)
-From PV Require Import Model.TextFormat Proofs.Radix.
-From PV Require Import Proofs.C20TextSpec Proofs.C20TextConv Proofs.C20Text Proofs.C20TextTop.
 
 (* what the implementation computes, ties included: round-half-even *)
 Theorem C20_text_halfeven : forall x F, fmt_ok F = true ->
